@@ -23,6 +23,9 @@ use serde_json::json;
 use serde_json::Map;
 use serde_json::Value;
 use std::collections::BTreeSet;
+#[cfg(melda_verif)]
+use crate::verif_hooks::HashMap;
+#[cfg(not(melda_verif))]
 use std::collections::HashMap;
 use std::num::NonZeroUsize;
 use std::sync::{Arc, Mutex, RwLock};
